@@ -56,6 +56,24 @@
 #include "time_zone_fixed.h"
 #include "time_zone_impl.h"
 
+#if defined(GOOGLE_CCTZ_VERIF)
+// Verification hook (off unless a test harness installs it): reports each
+// completed public lookup (op 0: lookup(time_point), 1: lookup(civil_second),
+// 2: next_transition, 3: prev_transition) with its argument and result.
+namespace cctz_verif {
+void (*api_hook)(int op, const cctz::time_zone* tz, const void* arg,
+                 const void* result, bool ok) = nullptr;
+}  // namespace cctz_verif
+#define CCTZ_VERIF_API(op, arg, result, ok)                                   \
+  do {                                                                        \
+    if (cctz_verif::api_hook) cctz_verif::api_hook(op, this, arg, result, ok); \
+  } while (0)
+#else
+#define CCTZ_VERIF_API(op, arg, result, ok) \
+  do {                                      \
+  } while (0)
+#endif
+
 namespace cctz {
 
 namespace {
@@ -142,21 +160,29 @@ std::string time_zone::name() const {
 
 time_zone::absolute_lookup time_zone::lookup(
     const time_point<seconds>& tp) const {
-  return effective_impl().BreakTime(tp);
+  const absolute_lookup al = effective_impl().BreakTime(tp);
+  CCTZ_VERIF_API(0, &tp, &al, true);
+  return al;
 }
 
 time_zone::civil_lookup time_zone::lookup(const civil_second& cs) const {
-  return effective_impl().MakeTime(cs);
+  const civil_lookup cl = effective_impl().MakeTime(cs);
+  CCTZ_VERIF_API(1, &cs, &cl, true);
+  return cl;
 }
 
 bool time_zone::next_transition(const time_point<seconds>& tp,
                                 civil_transition* trans) const {
-  return effective_impl().NextTransition(tp, trans);
+  const bool ok = effective_impl().NextTransition(tp, trans);
+  CCTZ_VERIF_API(2, &tp, trans, ok);
+  return ok;
 }
 
 bool time_zone::prev_transition(const time_point<seconds>& tp,
                                 civil_transition* trans) const {
-  return effective_impl().PrevTransition(tp, trans);
+  const bool ok = effective_impl().PrevTransition(tp, trans);
+  CCTZ_VERIF_API(3, &tp, trans, ok);
+  return ok;
 }
 
 std::string time_zone::version() const {
